@@ -91,6 +91,17 @@ RateRowOK(r) ==
     /\ r.accepted => r.rate >= 0
     /\ (r.accepted /\ WellFormed(r.chars) /\ r.fits) =>
           LET m == Meaning(r.chars) IN r.rate = m.rate /\ r.ms = m.ms /\ r.ns = m.ns
+\* kind "ramp": the two rate spellings of a ramp (start_chars, end_chars), whether the ramp was accepted, the tick
+\* interval it reports (ms, ns) and the values it yields at its start (first) and at its end (last).
+\* An accepted ramp means what its two rates spell: both per the SAME duration - which is its tick interval -, going
+\* from the start count to the end count.
+RampRowOK(r) ==
+    /\ r.panicked = FALSE
+    /\ (r.accepted /\ WellFormed(r.start_chars) /\ WellFormed(r.end_chars) /\ r.fits) =>
+          LET a == Meaning(r.start_chars)  b == Meaning(r.end_chars)
+          IN /\ a.ms = b.ms /\ a.ns = b.ns
+             /\ r.ms = a.ms /\ r.ns = a.ns
+             /\ r.first = a.rate /\ r.last = b.rate
 \* kind "trigger": any front end (stages string, constructor arguments, CLI flags, YAML file) ->
 \* rejected with an error, or a trigger that runs: it did not crash, ticks at a positive interval,
 \* has a usable rate function and at least one worker
